@@ -403,13 +403,13 @@ class NB:
         self.op("MEAN", [x, self.const_i32("axis", axes)], [o], "ReducerOptions", dict(KeepDims=keep), version=2)
         return o
 
-    def resize(self, x, kind):
+    def resize(self, x, kind, factor=None):
         d, st = self.draw, self.st
         X = self.info(x)
         if len(X["shape"]) != 4:
             return self.unary(x, "RELU", same_q=True)
         n, h, w, c = X["shape"]
-        f = d(st.sampled_from([2, 2, 4, 1]))
+        f = d(st.sampled_from([2, 2, 4, 1])) if factor is None else factor
         half = d(st.booleans())
         align = (not half) and d(st.booleans())
         oh, ow = (h * f, w * f) if not align else ((h - 1) * f + 1, (w - 1) * f + 1)
@@ -534,7 +534,7 @@ def network(profile="exact", max_ops=6, dtypes=("int8", "int8", "int8", "uint8",
             menu = ["conv", "dw", "add", "maxpool", "relu", "reshape", "concat", "rich_cpu", "rich_cpu", "rich_cpu", "custom", "unsupported_conv", "unsupported_tconv", "gather", "tile", "fc", "mul_const"]
             n_ops = draw(st.integers(2, max_ops))
         if profile == "cascade":  # chains of spatial operators on tall planes: what the scheduler cascades and stripes
-            menu = ["conv", "conv", "conv", "dw", "dw", "maxpool", "add_const", "relu", "add", "avgpool_valid", "padconv"]
+            menu = ["conv", "conv", "conv", "dw", "dw", "maxpool", "add_const", "relu", "add", "avgpool_valid", "padconv", "resize2"]
             n_ops = draw(st.integers(2, max_ops))
         if profile == "slices":  # exact-class operators fed by SLICE/STRIDED_SLICE/SPLIT/CONCATENATION/PAD/RESHAPE: read and write offsets on every kind of consumer
             menu = ["sslice", "sslice", "split", "concat", "pad", "reshape", "conv", "conv", "dw", "maxpool", "avgpool_valid", "relu", "relu6", "add", "mul", "fc", "padconv", "quantize", "maximum",
@@ -694,6 +694,11 @@ def network(profile="exact", max_ops=6, dtypes=("int8", "int8", "int8", "uint8",
                 cur = nb.mean(cur)
             elif kind in ("resize_nearest", "resize_bilinear"):
                 cur = nb.resize(cur, kind)
+            elif kind == "resize2":  # x2 up-scaling inside a chain of spatial operators (fused into its consumer or cascaded with it)
+                if r4 and int(math.prod(X["shape"])) <= 60000 and X["dtype"] != "int16":
+                    cur = nb.resize(cur, draw(st.sampled_from(["resize_nearest", "resize_nearest", "resize_bilinear"])), factor=2)
+                else:
+                    cur = nb.unary(cur, "RELU", same_q=True)
             elif kind == "softmax":
                 cur = nb.softmax(cur)
             elif kind in ("logistic", "tanh", "hswish", "lrelu"):
